@@ -10,6 +10,8 @@ R5  field protection (lockset): parent, waiters, disconnecting, children of a no
 R6  no stale registration: an element is appended to n->waiters (or a child to parent->children by the constructor) only in a critical section of
     the note's mutex in which the notified flag was (re-)read - otherwise a notification that completed in between leaves the new waiter/child
     on an already drained note, never to be woken/notified.  (Appends made by nsync_note_free's adoption are judged by C09.R5.)
+R7  when nsync_note_notify returns the note is notified: every path through the notifier calls the marker, took the "not > 0" edge of the
+    note-time test under the mutex, or waits (nsync_mu_wait on a condition reading the flag) for the notifier already in progress.
 Cross-thread histories ("no observer ever sees it un-notified again", descendants notified once no notification is in progress) are not decided."""
 from .. import util, ir as IR, objmodel, wakeshape
 from ..bounds import _guards, _norm_cmp
@@ -55,6 +57,69 @@ def is_call_result(callee):
             i = fn.imap.get(i.ops[0])
         return i is not None and i.op == 'call' and i.callee == callee
     return f
+
+def check_notify_returns_notified(mod, rep, rid):
+    """R7 - "when nsync_note_notify returns the note itself is notified".  In the function N that takes the note's mutex and calls the marker M
+    (the function storing notified = 1), every path from entry to return must pass through (a) the call of M, or (b) the false edge of a
+    `nsync_time_cmp (note time, zero) > 0` test (the note was seen notified / expired under the mutex), or (c) an unconditional nsync_mu_wait
+    on a condition function that reads the notified flag (another notifier is doing the work; wait until it has marked the note)."""
+    from ..bounds import _expand
+    NOTIFIED = 'nsync_note_s_.notified'
+    markers = set()
+    for f in mod.defined.values():
+        for i in f.real_insts():
+            if i.op == 'store' and i.ord != 'na' and IR.is_int(i.ops[0]) and IR.ival(i.ops[0]) == 1 and util.last_field(util.addr_class(mod, f, i.ops[1])) == NOTIFIED:
+                markers.add(f.name)
+    def reads_flag(fname):
+        f = mod.func(fname)
+        return f is not None and not f.decl and any(i.op == 'load' and util.last_field(util.addr_class(mod, f, i.ops[0])) == NOTIFIED for i in f.real_insts())
+    n = 0
+    for f in mod.defined.values():
+        if f.name in markers or not any(i.op == 'call' and i.callee in markers for i in f.real_insts()):
+            continue
+        if not any(i.op == 'call' and i.callee == 'nsync_mu_lock' and util.last_field(util.addr_class(mod, f, i.ops[0])) == MU for i in f.real_insts()):
+            continue
+        def block_ok(b):
+            for i in f.bmap[b].insts:
+                if i.op == 'call' and i.callee in markers:
+                    return True
+                if i.op == 'call' and i.callee == 'nsync_mu_wait' and len(i.ops) >= 2 and isinstance(i.ops[1], dict) and i.ops[1].get('k') == 'func' and reads_flag(i.ops[1]['n']):
+                    return True
+            return False
+        def edge_ok(b, t):
+            term = f.bmap[b].term
+            if term.op != 'br' or len(term.x['targets']) != 2 or term.x['targets'][0] == term.x['targets'][1] or not isinstance(term.ops[0], str) or term.ops[0] not in f.imap:
+                return False
+            out = []
+            _expand(f, f.imap[term.ops[0]], term.x['targets'][0] == t, out, 0)
+            for c_, s_ in out:
+                nm = _norm_cmp(f, c_, s_)
+                if nm and nm[0] in ('sle', 'slt', 'eq') and IR.is_int(nm[2]) and IR.ival(nm[2]) == 0:
+                    ci = f.imap.get(nm[1]) if isinstance(nm[1], str) else None
+                    if ci is not None and ci.op == 'call' and ci.callee == 'nsync_time_cmp':
+                        return True
+            return False
+        seen, work, bad = set(), [f.entry.id], None
+        while work and bad is None:
+            b = work.pop()
+            if b in seen:
+                continue
+            seen.add(b)
+            if block_ok(b):
+                continue
+            if f.bmap[b].term.op == 'ret':
+                bad = b
+                break
+            for t in f.bmap[b].succ:
+                if not edge_ok(b, t):
+                    work.append(t)
+        n += 1
+        rep.instance(rid, '%s: every path marks the note, saw it notified, or waits for the marking notifier: %s' % (f.name, bad is None)); rep.oblig(rid, bad is None)
+        if bad is not None:
+            rep.violate(Violation(rid, f.bmap[bad].term.where(), '%s can return on a path that neither marks the note notified, nor found it notified under its mutex, nor waits for another notifier to mark it: nsync_note_notify returns while the note is still un-notified' % f.name,
+                                  site='%s/returns-unnotified' % f.name))
+    if n == 0:
+        raise AnalysisBroken('%s: the notifier (function that locks the note and calls the marker) was not found' % rid)
 
 def run(ctx, rep):
     mod = ctx.mod('C')
@@ -160,6 +225,8 @@ def run(ctx, rep):
     if not pt:
         rep.oblig('C08.R4', False)
         rep.violate(Violation('C08.R4', '%s:%d in nsync_note_new' % (IR.rel(fn.file), fn.line), 'the parent\'s earlier expiry is never inherited', site='nsync_note_new/expiry-inherit'))
+    rep.rule('C08.R7', 'the notifier returns only after marking the note, seeing it notified, or waiting for the marking notifier')
+    check_notify_returns_notified(mod, rep, 'C08.R7')
     rep.floor('C08.R2', 3)
     rep.floor('C08.R5', 15)
     rep.floor('C08.R6', 2)
